@@ -1,7 +1,7 @@
 ---- MODULE MCFramingFaults ----
 EXTENDS FramingFaults
 MCConns == {"A", "B"}
-Bad == {"raises", "tolerable", "bad", "badlen", "short", "nolen", "partial", "junk"}
+Bad == {"raises", "closes", "tolerable", "bad", "badlen", "short", "nolen", "partial", "junk"}
 \* A: up to 3 messages with exactly one non-ok one (partial only last); B: two ok messages
 AStreams == {s \in UNION {[1..n -> Classes] : n \in 1..3} :
                /\ Cardinality({i \in DOMAIN s : s[i] # "ok"}) = 1
